@@ -291,6 +291,18 @@ def glweSwitchingKeyEncryptSk (tmp0 : Col) (bits b n size kxe rankOut rankIn dnu
   if (skIn.any (fun s => decide (n < s.length))) || (skOut.any (fun s => decide (n < s.length))) then none else
   gglweEncryptSkT tmp0 bits b n size kxe rankOut rankIn dnum dsize (skIn.map (znxSwitchRing n)) (skOut.map (znxSwitchRing n)) xa es
 
+/-- **`glwe_switching_key_compressed_encrypt_sk`**: the compressed twin — the same embedding of every column of both secrets
+(`vec_znx_switch_ring(tmp, 0, sk_out, i)` for column `i`), then `gglwe_compressed_encrypt_sk` -/
+def glweSwitchingKeyEncryptCompressedT (tmp0 : Col) (bits b n size kxe rankOut rankIn dnum dsize : Nat) (skIn skOut : List Poly)
+    (expand : List Nat → List Nat) (seedXa : List Nat) (es : List Poly) : Option (List (Nat × CellC)) :=
+  if (skIn.any (fun s => decide (n < s.length))) || (skOut.any (fun s => decide (n < s.length))) then none else
+  if rankOut ≠ skOut.length ∨ rankIn ≠ skIn.length then none else
+  gglweEncryptCompressedT tmp0 bits b n size kxe rankOut rankIn dnum dsize (skIn.map (znxSwitchRing n)) (skOut.map (znxSwitchRing n))
+    expand seedXa es
+
+/-- the two degree fields a switching key records (`*res.input_degree() = sk_in.n(); *res.output_degree() = sk_out.n()`) -/
+def switchingKeyDegrees (skIn skOut : List Poly) : Nat × Nat := ((skIn.getD 0 []).length, (skOut.getD 0 []).length)
+
 /-- **`glwe_automorphism_key_encrypt_sk`**: the plaintext columns are the secret, the encryption secret is its image under
 `X ↦ X^(p⁻¹)` (`galois_element_inv(p)` modulo the cyclotomic order `2n`) -/
 def glweAutomorphismKeyEncryptSk (tmp0 : Col) (bits b n size kxe rank dnum dsize : Nat) (p : Int) (sk : List Poly)
